@@ -29,6 +29,7 @@ var (
 	fProc      = flag.Int("sim.proc", 0, "process index (decorrelates processes)")
 	fRuns      = flag.Int("sim.runs", 0, "max runs (0 = unlimited)")
 	fSkip      = flag.String("sim.skip", "", "comma-separated run indices to skip (runs in which the toolchain's race runtime is known to die)")
+	fBuild     = flag.String("sim.build", "", "JSON: non-default corpus build parameters, copied into replay files")
 	fFrom      = flag.Int("sim.from", 0, "index of the first run (runs are seeded independently: seed, proc, run)")
 	fSecs      = flag.Float64("sim.secs", 10, "wall-clock budget in seconds")
 	fOut       = flag.String("sim.out", "", "summary JSON output file")
@@ -76,6 +77,9 @@ type FoundInfo struct {
 type CorpusInfo struct {
 	Seed int64  `json:"seed"`
 	Tier string `json:"tier"`
+	// Build: how the driver generated this binary's corpus when not in the
+	// default way (JSON object of build_l2 keyword arguments), for ./check replay.
+	Build json.RawMessage `json:"build,omitempty"`
 }
 
 // Summary is what one process reports.
@@ -314,7 +318,7 @@ func TestSim(t *testing.T) {
 			}
 			mv := Find(Check(mres), v.Prop, classKey(v.Class))
 			rp := &Replay{Property: v.Prop, Class: mv.Class, Message: mv.Msg, Engine: "l2", TraceHash: fmt.Sprintf("%016x", mres.Hash), Steps: mres.Steps,
-				Desc: md, History: historyLines(mres), Trace: mres.Trace, Corpus: CorpusInfo{*fSeed, *fTier}, Programs: progsOf(md),
+				Desc: md, History: historyLines(mres), Trace: mres.Trace, Corpus: CorpusInfo{Seed: *fSeed, Tier: *fTier, Build: json.RawMessage(*fBuild)}, Programs: progsOf(md),
 				Found: FoundInfo{Seed: *fSeed, Proc: *fProc, Run: run, OrigSteps: res.Steps, OrigChoices: len(res.Choices), OrigJobs: nj, MinTrials: trials}}
 			path := ""
 			if *fReplayDir != "" {
